@@ -710,7 +710,7 @@ class Screen(BaseScreen, RealTerminal):
         if canvas.cursor is not None:
             x, y = canvas.cursor
             output += [set_cursor_position(x, y), escape.SHOW_CURSOR]
-            self._cy = y
+            cy = y
 
         if self._resized:
             # handle resize before trying to draw screen
@@ -726,6 +726,7 @@ class Screen(BaseScreen, RealTerminal):
             if e.args[0] != 4:
                 raise
 
+        self._cy = cy
         self.screen_buf = sb
         self._screen_buf_canvas = canvas
 
